@@ -11,6 +11,11 @@ CLAIMED = {
          "Every reachable session state over a 32-statement alphabet (bind, rebind, shadow, nested assignment, output, calls, failing and reserved-name statements) is enumerated to the BFS fixpoint; every transition runs one statement through get_pairs/evaluate_pairs and is checked against the immutability/scoping invariants and a reference model of the alphabet. Right level because the property is an invariant over all statement histories.",
          "Trusts the harness's canonical state key (sorted bindings + outputs) and the 32-statement reference model; names/values outside the alphabet are not explored.",
          "DESIGN.md §4 C03"),
+ "C04": ("model_checking",
+         "explicit enumeration of sessions (definition-time values x closure definitions) and of calling contexts as transitions of the real evaluator; reference model for arity",
+         "Every closure of a 20-definition hand-written set plus every generated body (every node kind, every parent x child kind in every slot, over parameter / captured / literal leaves) is defined in a session under each definition-time value pair; the same call is then evaluated at top level and in 21 calling contexts (shadowing parameters of every kind, do-locals, nested blocks, callbacks of via/map/into/reduce/where, the function itself as callback, a closure created under another binding, container and conditional positions), with refused redefinitions in between: every context must give the top-level value. All 24 documented parameter-list shapes x argument counts 0..n+3 x plain/spread/mixed/into passing are compared with a 10-line reference model of positional binding.",
+         "Closures are closed by construction (all free names bound at definition); bodies deeper than parent x child and contexts outside the 21-entry grammar are not explored.",
+         "DESIGN.md §4 C04"),
  "C05": ("exploration",
          "generator-automaton enumeration of function bodies x capture configurations x argument tuples; differential execution of original vs reloaded vs re-emitted function",
          "Function bodies = every node kind alone, every parent x child kind in every slot, depth-3 spines, plus binder-collision kinds (inner parameter / do-local / shorthand named like a captured name, postfix on captured values) over typed leaves; each under 12 capture configurations (negative, NaN, infinities, -0, strings with both quote kinds / backslash / newline, nested data, records with quoted keys, closures with their own captures, built-ins) and every argument pair of a 6/11-value pool: the original closure, its from_json(to_json(.)) reload in a fresh heap and the re-emitted reload must agree (equal value or both fail); the emitted text must itself be a lambda; a spread of functions also through the real `blots p1 | blots p2` pipeline.",
